@@ -114,6 +114,13 @@ pub fn run(mut run: Run) -> i32 {
         expect!("orient2d(p,q,c)", osign(<f64 as GeoNum>::Ker::orient2d(co(b.p), co(b.q), co(c))), ex);
         expect!("orient2d(q,c,p)", osign(<f64 as GeoNum>::Ker::orient2d(co(b.q), co(c), co(b.p))), ex);
         expect!("orient2d(c,q,p)", osign(<f64 as GeoNum>::Ker::orient2d(co(c), co(b.q), co(b.p))), -ex);
+        // the free function for the winding of a triangle (public, used by the stitcher): same three points, both vertex orders
+        {
+            use geo::winding_order::triangle_winding_order;
+            let ws = |w: Option<WindingOrder>| match w { Some(WindingOrder::CounterClockwise) => 1, Some(WindingOrder::Clockwise) => -1, None => 0 };
+            expect!("triangle_winding_order(p,q,c)", ws(triangle_winding_order(&Triangle(co(b.p), co(b.q), co(c)))), ex);
+            expect!("triangle_winding_order(c,q,p)", ws(triangle_winding_order(&Triangle(co(c), co(b.q), co(b.p)))), -ex);
+        }
         // point on segment
         let seg = Line::new(co(b.p), co(b.q));
         expect!("Line intersects Coord", seg.intersects(&co(c)), bigf::on_segment(b.p, b.q, c));
